@@ -6,7 +6,8 @@
 //
 // Case line:   <kind>,<mode>,<rmtu>,<rmagic>,<rsex>,<rmax>,<misc>|op;op;...
 //   kind  P = PacketTunnelIOGateway, N = MiniPacketTunnelIOGateway
-//   mode  M = no slave gateway (a Message is its flattened bytes), R = RawDataMessageIOGateway slave (a Message is a raw blob)
+//   mode  M = no slave gateway (a Message is its flattened bytes), R = RawDataMessageIOGateway slave (a Message is a raw blob),
+//         B = the harness's own minimal slave gateway (a Message is any byte string, the empty one included)
 //   ops   S:i:addr:mtu:magic:sex:level   create sender i with source address addr
 //         I:i:id                         overwrite the sender's message-id / packet-id counter
 //         A:i:hex[,hex..]                AddOutgoingMessage (mode M: flattened Message bytes; mode R: the data chunks)
@@ -74,18 +75,60 @@ public:
    uint32 _budget;
 };
 
+// mode B: a minimal slave gateway of the harness's own (a user-defined AbstractMessageIOGateway, which the tunnels
+// are designed to wrap): one Message <-> one packet of arbitrary bytes, INCLUDING the empty packet, which none of
+// muscle's own gateways ever generates.  Message layout: int32 "n" = length, raw "d" = the bytes when n > 0.
+class BlobGateway : public AbstractMessageIOGateway
+{
+public:
+   virtual bool HasBytesToOutput() const {return GetOutgoingMessageQueue().HasItems();}
+protected:
+   virtual io_status_t DoOutputImplementation(uint32)
+   {
+      io_status_t total;
+      MessageRef m;
+      while(PopNextOutgoingMessage(m).IsOK())
+      {
+         const void * p = NULL; uint32 n = 0;
+         static const uint8 none = 0;
+         if (m()->FindData("d", B_RAW_TYPE, &p, &n).IsError()) {p = &none; n = 0;}
+         PacketDataIO * pdio = GetPacketDataIO();
+         if (pdio == NULL) return B_BAD_OBJECT;
+         const io_status_t r = pdio->Write(p, n);
+         if (r.IsError()) return r;
+         total += r;
+      }
+      return total;
+   }
+   virtual io_status_t DoInputImplementation(AbstractGatewayMessageReceiver & receiver, uint32)
+   {
+      PacketDataIO * pdio = GetPacketDataIO();
+      if (pdio == NULL) return B_BAD_OBJECT;
+      static uint8 tmp[70000];
+      IPAddressAndPort src;
+      ByteBufferPacketDataIO * bb = dynamic_cast<ByteBufferPacketDataIO *>(pdio);
+      if ((bb)&&(bb->GetBuffersToRead().IsEmpty())) return io_status_t();
+      const io_status_t r = pdio->ReadFrom(tmp, sizeof(tmp), src);
+      if (r.IsError()) return r;
+      MessageRef m = GetMessageFromPool(1651273570);  // 'blob'
+      if ((m())&&(m()->AddInt32("n", r.GetByteCount()).IsOK())&&((r.GetByteCount() == 0)||(m()->AddData("d", B_RAW_TYPE, tmp, (uint32)r.GetByteCount()).IsOK())))
+         CallMessageReceivedFromGateway(receiver, m);
+      return r;
+   }
+};
+
 struct Delivery {uint32 addr; Bytes bytes;};
 
 class Rcv : public AbstractGatewayMessageReceiver
 {
 public:
-   Rcv(bool raw) : _raw(raw) {}
+   Rcv(char mode) : _mode(mode) {}
    std::vector<Delivery> got;
 protected:
    virtual void MessageReceivedFromGateway(const MessageRef & msg, void * ud)
    {
       Delivery d; d.addr = ud ? addr_of(*(static_cast<const IPAddressAndPort *>(ud))) : 0xFFFFFFFFu;
-      if (_raw)
+      if (_mode == 'R')
       {
          const void * p = NULL; uint32 n = 0;
          for (int32 i=0; msg()->FindData(PR_NAME_DATA_CHUNKS, B_ANY_TYPE, i, &p, &n).IsOK(); i++)
@@ -93,6 +136,12 @@ protected:
             d.bytes.assign((const uint8 *)p, ((const uint8 *)p)+n);
             got.push_back(d);
          }
+      }
+      else if (_mode == 'B')
+      {
+         const void * p = NULL; uint32 n = 0;
+         if (msg()->FindData("d", B_RAW_TYPE, &p, &n).IsOK()) d.bytes.assign((const uint8 *)p, ((const uint8 *)p)+n);
+         got.push_back(d);
       }
       else
       {
@@ -103,7 +152,7 @@ protected:
       }
    }
 private:
-   bool _raw;
+   char _mode;
 };
 
 struct Sender
@@ -118,9 +167,11 @@ struct Sender
 
 struct SentPacket {Bytes bytes; int sender;};
 
-static AbstractMessageIOGatewayRef make_slave(bool raw)
+static AbstractMessageIOGatewayRef make_slave(char mode)
 {
-   return raw ? AbstractMessageIOGatewayRef(new RawDataMessageIOGateway()) : AbstractMessageIOGatewayRef();
+   if (mode == 'R') return AbstractMessageIOGatewayRef(new RawDataMessageIOGateway());
+   if (mode == 'B') return AbstractMessageIOGatewayRef(new BlobGateway());
+   return AbstractMessageIOGatewayRef();
 }
 
 static uint32 first_word(const Bytes & b) {return (b.size() >= 4) ? ((uint32)b[0] | ((uint32)b[1]<<8) | ((uint32)b[2]<<16) | ((uint32)b[3]<<24)) : 0;}
@@ -133,7 +184,9 @@ static void run_case(int k, const std::string & line, bool ztable)
    std::vector<std::string> hd = split(line.substr(0, bar), ',');
    if (hd.size() < 7) {printf("%d BADCASE head\n", k); return;}
    const bool mini = (hd[0] == "N");
-   const bool raw  = (hd[1] == "R");
+   const char mode = hd[1].empty() ? 'M' : hd[1][0];
+   const bool raw  = (mode == 'R');
+   const bool blob = (mode == 'B');
    const uint32 rmtu = U(hd[2]), rmagic = U(hd[3]), rsex = U(hd[4]), rmax = U(hd[5]);
    const bool misc = (hd[6] == "1");
 
@@ -142,11 +195,11 @@ static void run_case(int k, const std::string & line, bool ztable)
       ByteBufferPacketDataIO rio(65536);   // declared before the gateway: the gateway must be destroyed first
       PacketTunnelIOGateway * prcv = NULL; MiniPacketTunnelIOGateway * nrcv = NULL;
       AbstractMessageIOGatewayRef rgw;
-      if (mini) {nrcv = new MiniPacketTunnelIOGateway(make_slave(raw), rmtu, rmagic); rgw.SetRef(nrcv); nrcv->SetSourceExclusionID(rsex); nrcv->SetAllowMiscIncomingData(misc);}
-           else {prcv = new PacketTunnelIOGateway(make_slave(raw), rmtu, rmagic);     rgw.SetRef(prcv); prcv->SetSourceExclusionID(rsex); prcv->SetAllowMiscIncomingData(misc); prcv->SetMaxIncomingMessageSize(rmax);}
+      if (mini) {nrcv = new MiniPacketTunnelIOGateway(make_slave(mode), rmtu, rmagic); rgw.SetRef(nrcv); nrcv->SetSourceExclusionID(rsex); nrcv->SetAllowMiscIncomingData(misc);}
+           else {prcv = new PacketTunnelIOGateway(make_slave(mode), rmtu, rmagic);     rgw.SetRef(prcv); prcv->SetSourceExclusionID(rsex); prcv->SetAllowMiscIncomingData(misc); prcv->SetMaxIncomingMessageSize(rmax);}
       const uint32 rmtu_eff = mini ? nrcv->_maxTransferUnit : prcv->_maxTransferUnit;
       rgw()->SetDataIO(DummyDataIORef(rio));
-      Rcv receiver(raw);
+      Rcv receiver(mode);
 
       std::map<int, Sender *> senders;
       std::vector<SentPacket> sent;
@@ -169,8 +222,8 @@ static void run_case(int k, const std::string & line, bool ztable)
             if (senders.count(i)) {o << "S!;"; continue;}
             Sender * s = new Sender; senders[i] = s;
             s->addr = U(a[2]); s->mtu = U(a[3]); s->magic = U(a[4]); s->sex = U(a[5]); s->level = U(a[6]);
-            if (mini) {MiniPacketTunnelIOGateway * g = new MiniPacketTunnelIOGateway(make_slave(raw), s->mtu, s->magic); s->gw.SetRef(g); g->SetSourceExclusionID(s->sex); g->SetZLibCompressionLevel((uint8)s->level); s->mtu = g->_maxTransferUnit;}
-                 else {PacketTunnelIOGateway * g = new PacketTunnelIOGateway(make_slave(raw), s->mtu, s->magic);         s->gw.SetRef(g); g->SetSourceExclusionID(s->sex); s->mtu = g->_maxTransferUnit;}
+            if (mini) {MiniPacketTunnelIOGateway * g = new MiniPacketTunnelIOGateway(make_slave(mode), s->mtu, s->magic); s->gw.SetRef(g); g->SetSourceExclusionID(s->sex); g->SetZLibCompressionLevel((uint8)s->level); s->mtu = g->_maxTransferUnit;}
+                 else {PacketTunnelIOGateway * g = new PacketTunnelIOGateway(make_slave(mode), s->mtu, s->magic);         s->gw.SetRef(g); g->SetSourceExclusionID(s->sex); s->mtu = g->_maxTransferUnit;}
             s->gw()->SetDataIO(DummyDataIORef(s->io));
             o << "S;";
          }
@@ -192,7 +245,15 @@ static void run_case(int k, const std::string & line, bool ztable)
             std::vector<std::string> parts = split(a[2], ',');
             MessageRef m;
             bool ok = true;
-            if (raw)
+            if (blob)
+            {
+               Bytes b = unhex(parts[0]);
+               m = GetMessageFromPool(1651273570);
+               if (m()->AddInt32("n", (int32)b.size()).IsError()) ok = false;
+               if ((ok)&&(!b.empty())&&(m()->AddData("d", B_RAW_TYPE, &b[0], (uint32)b.size()).IsError())) ok = false;
+               if (ok) s->bufs.push_back(b);
+            }
+            else if (raw)
             {
                m = GetMessageFromPool(PR_COMMAND_RAW_DATA);
                for (size_t j=0; j<parts.size(); j++) {Bytes b = unhex(parts[j]); if (b.empty()) {ok = false; break;} if (m()->AddData(PR_NAME_DATA_CHUNKS, B_RAW_TYPE, &b[0], (uint32)b.size()).IsError()) ok = false; else s->bufs.push_back(b);}
@@ -275,7 +336,7 @@ static void run_case(int k, const std::string & line, bool ztable)
             bool firstOut = true;
             for (size_t j=before; j<receiver.got.size(); j++)
             {
-               if (receiver.got[j].bytes.empty()) continue;
+               if ((receiver.got[j].bytes.empty())&&(!blob)) continue;
                if (!firstOut) o << ","; firstOut = false;
                o << receiver.got[j].addr << ":" << hex(receiver.got[j].bytes);
             }
@@ -309,7 +370,7 @@ static void run_case(int k, const std::string & line, bool ztable)
          for (size_t j=0; j<receiver.got.size(); j++)
          {
             const Delivery & d = receiver.got[j];
-            if (d.bytes.empty()) continue;
+            if ((d.bytes.empty())&&(!blob)) continue;
             if (forgedFrom.count(d.addr)) continue;
             std::map<uint32, std::set<int> >::iterator f = feeders.find(d.addr);
             bool tainted = false, found = false;
@@ -357,7 +418,7 @@ static void run_case(int k, const std::string & line, bool ztable)
                   const bool fits = mini ? (16+len <= s->mtu) : (len <= rmax);
                   if (fits) expect.push_back(s->bufs[b]);
                }
-               for (size_t j=0; j<receiver.got.size(); j++) if ((receiver.got[j].addr == s->addr)&&(!receiver.got[j].bytes.empty())) have.push_back(receiver.got[j].bytes);
+               for (size_t j=0; j<receiver.got.size(); j++) if ((receiver.got[j].addr == s->addr)&&((blob)||(!receiver.got[j].bytes.empty()))) have.push_back(receiver.got[j].bytes);
                if (expect != have)
                {
                   orc << k << " ORACLE FAIL " << (mini?"mini":"tunnel") << ": perfect transport but delivered != sent-that-fits (source " << s->addr << ": expected " << expect.size() << " got " << have.size() << ")\n";
